@@ -141,6 +141,31 @@ theorem C20_conceal_lap_session_partial (ph : PH) (first last : Nat) (ms : List 
     noLeakB ph first last ms (conceal first last ms) = true :=
   conceal_noLeak hph first last ms hd hseq hur hul hkf
 
+/-- **Exactly what concealing does to each lap / session** (so that `Touch`, which would also allow stripping more, is
+not the last word), outside the class of KF-C20-1. With T₁ = timestamp of the first record at or beyond `first` (`r1`;
+no such record: every lap ends before it) and T₂ = timestamp of the last record at least `last` before the end (`r2`),
+`Stages` (FitProps/ActivityLeakLemmas.lean) says of every lap (session) `m`, its state `m1` after the start stage and
+`m'` after the end stage — start_time and total_timer_time never change —:
+* start stage, `first ≠ 0`: a lap ending before T₁ loses all four positions (`strip4`); a lap not ending before T₁ is
+  either THE one that gets the record's coordinates as start position (`rewriteStart`: the field is removed when the
+  record has no position, and a lap without the field gets none) — its end position untouched — or it is untouched and
+  starts at or after T₁ (the laps after the rewritten one). `first = 0`: untouched;
+* end stage, `last ≠ 0`: no record left revealed, or the stretches overlap (`ov`): all four positions go; otherwise a lap
+  starting after T₂ loses all four; a lap starting at or before T₂ is either THE one that gets the record's coordinates
+  as end position (`rewriteEnd … false`: start position untouched) or it is untouched and ends at or before T₂.
+  `last = 0`: untouched.
+Which lap is "the one" is said by the walk theorems `C20_conceal_lap_session_start_partial` / `_end`: the first lap
+not ending before T₁ — even when it STARTS after T₁ (T₁ in a gap between two laps: that lap's start position, which
+did not point into the stretch, is replaced by the record's; over-concealing in the letter, harmless, and allowed by
+the reading of the property's last clause, DESIGN §3) — and the last lap starting at or before T₂. -/
+theorem C20_conceal_lap_session_stages (ph : PH) (first last : Nat) (ms : List Message) (hph : ph = lapPH ∨ ph = sesPH)
+    (hd : DistOK ms) (hseq : lapsSeqB ph ms = true) (hur : recUniqueB ms = true) (hkf : unitsDisagree ph first ms = false) :
+    ∃ (r1 r2 : RecInfo) (ov : Bool),
+      ∀ (i : Nat) (m m' : Message), ms[i]? = some m → (conceal first last ms)[i]? = some m' → (m.num == ph.mesgNum) = true →
+        ∃ m1, Stages ph first last ms m m1 m' r1 r2 ov := by
+  obtain ⟨r1, r2, ov, h⟩ := conceal_stages hph first last ms hd hseq hur hkf
+  exact ⟨r1, r2, ov, fun i m m' hm hm' hn => h.get i m m' hm hm' hn⟩
+
 /-- strictly increasing record timestamps (an activity recorded forward in time, at most one record per second) exclude
 the class of the former finding KF-C20-4 (`overlapTie`) — why the first version of the statement, which assumed them,
 could not see it -/
